@@ -595,6 +595,11 @@ func runC19(e *env) error {
 	if err := c19RealPath(e, rc, nReal); err != nil {
 		return err
 	}
+	// (c) the settings of a method are applied in SOURCE ORDER whatever kind of line they are: the field table and the raw field
+	// lines of methods carrying several lines for one field, through the real comments.ParseDocs + config.Parse path
+	if err := runFuncAttach(e); err != nil {
+		return err
+	}
 	return nil
 }
 
